@@ -161,15 +161,11 @@ def check_process(run, cx, cfg):
         ok = len(ps) == 1 and len(call_events(ps[0])) == 1 and rp(call_events(ps[0])[0][1]) == 'dasp_graph::process' \
             and [unre(a) for a in call_events(ps[0])[0][1]['args']] == [('param', 1), ('param', 2), ('param', 3)]
         run.check(ok, 'graph.processor-forwards', fn, cfg, 'Processor::process must forward (self, graph, node) to process()', where=where(body))
-    # who may call Input::new
-    callers = set()
-    for b in cx.facts.bodies.values():
-        for i, t in mirutil.calls(b):
-            if mirutil.resolved_path(t) == 'dasp_graph::node::Input::new':
-                callers.add(b['path'])
+    # who may call Input::new: process(), possibly through private helpers that only process() reaches
+    callers, offenders = callers_confined(cx.facts, 'dasp_graph::node::Input::new', {'dasp_graph::process'})
     info = cx.facts.fns.get('dasp_graph::node::Input::new', {})
-    run.check(callers == {'dasp_graph::process'} and info.get('pub') is False, 'graph.input-who-may-call', 'dasp_graph::node::Input::new', cfg,
-              'Input (a raw pointer + length) may only be built by process(), from buffers that outlive the call: callers %s, pub=%s' % (sorted(callers), info.get('pub')))
+    run.check(not offenders and info.get('pub') is False, 'graph.input-who-may-call', 'dasp_graph::node::Input::new', cfg,
+              'Input (a raw pointer + length) may only be built by process() (or its private helpers), from buffers that outlive the call: reachable from %s, pub=%s' % (sorted(offenders), info.get('pub')))
     run.check(len(callers) >= 1, 'graph.input-who-may-call', 'dasp_graph::node::Input::new', cfg + ':positive-control', 'matcher found no caller at all')
 
 
@@ -231,7 +227,8 @@ def check_sources_sinks(run, cx, cfg):
                     ce = call_events(cp)
                     nb = [(k, e) for k, e in ce if e['name'] == 'neighbors_directed']
                     nx = [(k, e) for k, e in ce if e['name'] == 'next' and e.get('trait') == ITER]
-                    if len(nb) != 1 or len(nx) != 1 or nb[0][1]['args'][1] != ('id',):
+                    # (`filter` hands the predicate a reference to the id, `filter_map` the id itself)
+                    if len(nb) != 1 or len(nx) != 1 or nb[0][1]['args'][1] not in (('id',), ('deref', ('id',))):
                         bad_dir = 'filter must examine neighbors_directed(id, %s).next()' % direction
                         break
                     dirn = nb[0][1]['args'][2]
@@ -240,6 +237,10 @@ def check_sources_sinks(run, cx, cfg):
                         break
                     has = dict(cond_facts(cp)).get(('discr', ('ret', nx[0][0])))
                     r = cp['ret']
+                    if has is None and r in (('op', 'Eq', ('discr', ('ret', nx[0][0])), ('int', 0, 'isize')), ('op', 'Ne', ('discr', ('ret', nx[0][0])), ('int', 1, 'isize'))):
+                        # `.next().is_none()` as the filter predicate: kept exactly when there is no such neighbour
+                        seen.update(('keep', 'drop'))
+                        continue
                     if has == ('int', 0, 'isize'):
                         if not (r[0] == 'agg' and r[1][2] == 1 and r[2][0] == ('id',)) and r != ('bool', True):
                             bad_dir = 'a node without such a neighbour must be kept'
